@@ -439,6 +439,7 @@ CHECKS = [
     ("w1", "checkInvBlock icrp107.cx icrp107.cix"),
     ("w2", "checkDiagBlock icrp107.cx icrp107.rate icrp107.parents"),
     ("w3", "checkRatesBlock icrp107"),
+    ("w6", "checkStableBlock icrp107.cx icrp107.rate"),
     ("w47", "checkLinksBlock icrp107"),
     ("wpar", "checkParentsBlock icrp107"),
     ("w5", "checkPatternBlock icrp107"),
@@ -451,7 +452,7 @@ OBL_FILES = 13
 
 
 HEAVY = {"w1": 1.0, "w2": 0.15, "w9agg": 3.0, "w9": 0.2, "w5": 0.1, "w47": 0.15, "w3": 0.03, "wpar": 0.03,
-         "w9lam": 0.03, "w9mass": 0.03}
+         "w9lam": 0.03, "w9mass": 0.03, "w6": 0.03}
 
 
 def emit_obligations(nb: int, block_cost=None):
